@@ -284,6 +284,19 @@ func runC01(c *explore.Ctx) {
 			}
 		}
 	}
+	// HUGE: 66 000 documents - document numbers cross 65 536 (roaring container boundary)
+	for hi, p := range []int{0, 1} {
+		if c.MineIdx("HUGE", int64(hi)) && !c.Expired() {
+			batch := gen.Large(66000, p, 1)
+			for j := range batch {
+				if j%1000 == 0 || (j >= 65534 && j <= 65538) || j == 65999 {
+					batch[j] = append(gen.Doc{gen.IDField("h", j)}, batch[j]...)
+					batch[j] = append(batch[j], model.Field{N: "b", Len: 1, DV: true, St: true, Val: []byte(fmt.Sprintf("stored-%d", j)), Terms: []model.Term{{T: fmt.Sprintf("t%d", j%7), Freq: 1}}})
+				}
+			}
+			checkBuiltLarge(c, "HUGE", int64(hi), batch, 1025, fmt.Sprintf("HUGE n=66000 pattern=%d adaptive", p))
+		}
+	}
 	// LARGE: the only way to make the adaptive mode multi-chunk
 	largeModes := []uint32{1025, 1024}
 	sizes := []int{1023, 1024, 1025, 2049}
